@@ -65,8 +65,20 @@ def check_w1(res: Result, proj: Project, rule: str = "W1"):
         ps = f.param_names
         ds = next((p for p in ps if p == "dataset"), None)
         sc = next((p for p in ps if p == "scoring_scheme"), None)
+        def refers_to(expr, param):
+            """expr is the parameter, or a local bound once to (an alias of) the parameter"""
+            seen_ = set()
+            while isinstance(expr, ast.Name) and expr.id != param and expr.id not in seen_:
+                seen_.add(expr.id)
+                defs = [a for a in ast.walk(f.node) if isinstance(a, (ast.Assign, ast.AnnAssign)) and a.value is not None
+                        and isinstance((a.targets[0] if isinstance(a, ast.Assign) else a.target), ast.Name)
+                        and (a.targets[0] if isinstance(a, ast.Assign) else a.target).id == expr.id]
+                if len(defs) != 1:
+                    return False
+                expr = defs[0].value
+            return isinstance(expr, ast.Name) and expr.id == param
         good = ds is not None and sc is not None and "dataset" in kw and "scoring_scheme" in kw \
-            and src(kw["dataset"]) == ds and src(kw["scoring_scheme"]) == sc
+            and refers_to(kw["dataset"], ds) and refers_to(kw["scoring_scheme"], sc)
         # the parameters must not be rebound before the call
         rebound = [n for n in ast.walk(f.node) if isinstance(n, ast.Name) and isinstance(n.ctx, ast.Store)
                    and n.id in (ds, sc)]
@@ -425,8 +437,14 @@ def _check_optional(res: Result, proj: Project, prods):
             p = parent(node)
             cur = node
             while p is not None and p is not f.node:
-                if isinstance(p, ast.If) and cur in p.body and src(p.test) in (f"{var} is not None", f"not {var} is None"):
-                    guarded = True
+                if isinstance(p, ast.If):
+                    mentions = any(isinstance(x, ast.Name) and x.id == var for x in ast.walk(p.test))
+                    nones = any(isinstance(x, ast.Constant) and x.value is None for x in ast.walk(p.test))
+                    neg = any(isinstance(x, (ast.IsNot, ast.NotEq)) for x in ast.walk(p.test)) or \
+                        any(isinstance(x, ast.UnaryOp) and isinstance(x.op, ast.Not) for x in ast.walk(p.test))
+                    pos = any(isinstance(x, (ast.Is, ast.Eq)) for x in ast.walk(p.test)) and not neg
+                    if mentions and nones and ((cur in p.body and neg) or (cur in p.orelse and pos)):
+                        guarded = True
                 cur, p = p, parent(p)
         key = f"{f.short}:KEMENY_SCORE<-{src(origin)}"
         if may_none is False:
